@@ -46,11 +46,14 @@ def fams_for(prop, quick):
             f += [12003, 12004, 12010, 12111, 12102, 12105]
             # 1202b / 12030 / 1204f representation limits as range / length bounds; 102xx histories of one typedef in one compilation
             f += [12021, 12023, 12024, 12030, 12041, 10201, 10202, 10203, 10205]
+            # 122xx every probe lexeme of a type (incl. multi-byte strings, lexical variants, anchoring probes) as default at every level
+            f += [12201, 12202, 12203, 12204, 12206, 12207, 12210, 12211, 12214, 12216, 12218, 12220]
             rand += [11001]
         else:
             f += [10000 + i for i in (1, 2, 3, 4, 5, 6, 11, 12, 13, 21, 22)] + [10110 + i for i in range(1, 9)] + [10120 + i for i in range(1, 7)] + [10131, 10132, 10133, 10140]
             f += [12001, 12002, 12003, 12004, 12010, 12101, 12102, 12103, 12104, 12105]
             f += [12020 + i for i in range(1, 9)] + [12030] + [12040 + i for i in range(1, 7)] + [10200 + i for i in range(1, 8)]
+            f += [12200 + i for i in range(1, 22)]
             rand += list(range(11001, 11007))
     else:
         f = [8000 + i for i in range(1, 9)] + [8010 + i for i in range(1, 7)] + [8020, 8021, 8022]
